@@ -7,6 +7,7 @@ import (
 	"encoding/json"
 	"fmt"
 	"strings"
+	"unicode"
 
 	"github.com/biogo/biogo/alphabet"
 	"github.com/biogo/biogo/feat"
@@ -15,11 +16,11 @@ import (
 
 type kase struct {
 	Kind    string `json:"kind"`
-	Name    string `json:"name,omitempty"`  // built-in
-	Def     string `json:"def,omitempty"`   // definition letters
-	Cased   bool   `json:"cased,omitempty"` // case sensitive
+	Name    string `json:"name,omitempty"`   // built-in
+	Def     string `json:"def,omitempty"`    // definition letters
+	Cased   bool   `json:"cased,omitempty"`  // case sensitive
 	Reused  bool   `json:"reused,omitempty"` // the Pairing was given to a case-insensitive complementor first
-	S       string `json:"s,omitempty"`     // pairing definition
+	S       string `json:"s,omitempty"`      // pairing definition
 	C       string `json:"c,omitempty"`
 	Letters []byte `json:"letters,omitempty"` // AllValid input
 }
@@ -319,7 +320,7 @@ func check(c *enum.Ctx, k kase) bool {
 }
 
 func run(c *enum.Ctx) {
-	c.Rule("complete: 7 built-in alphabets x all 256 letters (validity, index, letter, complement method/table) and every letter slice of length <=3 over {valid lower, valid upper, invalid, 0xFF} and every slice of length 4..19, 63..66 of valid letters with zero, one or two invalid letters at every position; bounded-exhaustive: every alphabet definition of length 1..4 over {a,B,c,-,*} without case-duplicates, cased and uncased; every pair of strings of length <=3 over {a,c,g,t} (plus mismatched lengths and a non-ASCII rune at every position) as a pairing definition, with a complementor over every alphabet it is closed over (also with a Pairing value that served a case-insensitive complementor first); distinct = distinct case descriptors; non-trivial = cases where a constructor succeeded or a built-in was queried")
+	c.Rule("complete: 7 built-in alphabets x all 256 letters (validity, index, letter, complement method/table) and every letter slice of length <=3 over {valid lower, valid upper, invalid, 0xFF} and every slice of length 4..19, 63..66, 258, 259 and 2^k-1, 2^k, 2^k+1 (127..1025) of valid letters with zero, one or two invalid letters at every position; bounded-exhaustive: every alphabet definition of length 1..4 over {a,B,c,-,*} without case-duplicates, cased and uncased; every pair of strings of length <=3 over {a,c,g,t} (plus mismatched lengths and a non-ASCII rune at every position) as a pairing definition, with a complementor over every alphabet it is closed over, cased and uncased, the uncased ones also spelt in upper and mixed case (also with a Pairing value that served a case-insensitive complementor first); distinct = distinct case descriptors; non-trivial = cases where a constructor succeeded or a built-in was queried")
 	c.Assume("reference definitions of the built-in alphabets are restated in the harness from the package documentation")
 	n := 0
 	do := func(k kase) {
@@ -350,6 +351,8 @@ func run(c *enum.Ctx) {
 			lens = append(lens, n)
 		}
 		lens = append(lens, 63, 64, 65, 66)
+		lens = append(lens, enum.Ladder(127, 1025)...) // the size ladder (block-wise scans with a tail)
+		lens = append(lens, 258, 259)
 		for _, n := range lens {
 			base := make([]byte, n)
 			for i := range base {
@@ -417,6 +420,15 @@ func run(c *enum.Ctx) {
 				up := strings.ToUpper(s)
 				upc := strings.ToUpper(cs)
 				do(kase{Kind: "new-pairing", S: s + up, C: cs + upc, Def: def, Cased: false})
+				// a case-insensitive alphabet may be spelt in upper or mixed case
+				mixed := []byte(def)
+				for i := range mixed {
+					if i%2 == 1 {
+						mixed[i] = byte(unicode.ToUpper(rune(mixed[i])))
+					}
+				}
+				do(kase{Kind: "new-pairing", S: s + up, C: cs + upc, Def: strings.ToUpper(def), Cased: false})
+				do(kase{Kind: "new-pairing", S: s + up, C: cs + upc, Def: string(mixed), Cased: false})
 			}
 			// a non-ASCII rune at every position of either string
 			for p := 0; p < len(s); p++ {
